@@ -38,3 +38,6 @@ claim("C17", "model_checking", "bounded-exhaustive metamorphic enumeration: ever
 claim("C13", "model_checking", "explicit-state BFS over the real private state of the reused PostingsList/PostingsIterator slots; every lookup compared with fresh objects and the model",
       "Over an alphabet of ~1.7k (quick) lookups - segment x field (with terms / without / unknown) x term (general multi-chunk / 1-hit / absent) x exclusion x flags x how much of the iterator is consumed x which preallocated objects are passed - every reuse history of length <=3 (quick) or to a fixpoint/state cap (thorough) is executed on the real code, states de-duplicated by the dump of the slots' private fields; each lookup's complete result must equal the same lookup with fresh objects and the model.",
       TRUST + " vellum.Reader state inside long-lived dictionaries is not in the state key.", "DESIGN.md 5 C13", E2)
+claim("C15", "model_checking", "exhaustive enumeration of operation sequences (path mode) on real segments and caller bitmaps with a full before/after comparison after every operation",
+      "Every sequence of <=3 (thorough <=4) operations drawn from 27 read/persist/merge/exclusion operations over a built, a loaded and a merged segment and three caller bitmaps is run on a fresh environment; after every operation each segment's complete observation and persisted bytes, the raw byte image behind the loaded segment and each bitmap's value and serialized form are compared with the baseline.",
+      TRUST, "DESIGN.md 5 C15", E2)
